@@ -28,6 +28,11 @@ def bad_outcome(res):
     return res.cls in ("panic", "signal", "abort", "asan", "tsan", "cpu-limit") or res.cls.startswith("exit-")
 
 
+def endpoint_flake(res):
+    """The harness's own fake endpoint did not accept a connection in time (loaded machine): nothing learnt about blockwatch."""
+    return b"Connection timed out (os error 110)" in res.err and b"127.0.0.1" in res.err
+
+
 def inconclusive_outcome(res):
     return res.cls == "wall-timeout"
 
